@@ -36,6 +36,22 @@ def run(ctx: Context) -> None:
 
 
 def r1_r3_get_closest(ctx: Context) -> None:
+    mark = (len(ctx.obligations), len(ctx.findings))
+    try:
+        _r1_r3_get_closest(ctx)
+    except AnalysisError:
+        # undecided as a whole: verdicts recorded before the rule lost its footing (e.g. "the return is not a subscript of the grid" when the
+        # search moved into a helper object) are withdrawn with it
+        keep_f = [x for x in ctx.findings[mark[1]:] if x.rule != "R1.element"]
+        keep_o = [o for o in ctx.obligations[mark[0]:] if not (o.get("rule") == "R1.element" and o.get("verdict") == "violated")]
+        del ctx.obligations[mark[0]:]
+        del ctx.findings[mark[1]:]
+        ctx.obligations.extend(keep_o)
+        ctx.findings.extend(keep_f)
+        raise
+
+
+def _r1_r3_get_closest(ctx: Context) -> None:
     f = ctx.func(GC)
     if len(f.params) < 2:
         raise AnalysisError("anchor vanished: get_closest(sorted_array, values)")
@@ -46,7 +62,8 @@ def r1_r3_get_closest(ctx: Context) -> None:
     # the index arithmetic must be readable in place: if part of it sits in repository helpers that could not be inlined (several returns, masks passed
     # around in records), the clamp may be there too and nothing can be said here
     from ..model import FuncInfo
-    opaque = sorted({src(c_.func) for c_ in calls_in(f.node, scope_only=False) if any(isinstance(t, FuncInfo) for t in ctx.prog.resolve_call(f, c_))})
+    opaque = sorted({src(c_.func) for c_ in calls_in(f.node, scope_only=False) if any(isinstance(t, FuncInfo) for t in ctx.prog.resolve_call(f, c_))
+                     or ctx.prog.class_of_name(f.module, dotted(c_.func) or "") is not None})
     mark = (len(ctx.obligations), len(ctx.findings))
     rebound = [s for s in walk_scope(f.node) if isinstance(s, (ast.Assign, ast.AugAssign, ast.AnnAssign))
                for t in ast.walk(s.targets[0] if isinstance(s, ast.Assign) else s.target) if isinstance(t, ast.Name) and isinstance(t.ctx, ast.Store) and t.id == grid]
